@@ -41,7 +41,6 @@ package dkg
 
 //@ func newFrostParticipants
 //@ props C11
-//@ requires numNodes < 1000000
 //@ callreq frost.NewDkgParticipant: a1 == shareIdx && a2 == threshold && a3 == dgkCtx
 //@ callreq frost.NewDkgParticipant: forall(i, 0, len(a5), a5[i] != shareIdx && a5[i] >= 1 && a5[i] <= numNodes)
 //@ callreq frost.NewDkgParticipant: all(j, uint32, j >= 1 && j <= numNodes && j != shareIdx ==> exists(i, 0, len(a5), a5[i] == j))
@@ -170,3 +169,32 @@ package dkg
 //@ ensures r2 == nil ==> shamir != nil && shamir.GetKey() != nil
 //@ ensures r2 == nil ==> r0.ValIdx == shamir.GetKey().GetValIdx() && r0.SourceID == shamir.GetKey().GetSourceId() && r0.TargetID == shamir.GetKey().GetTargetId()
 //@ ensures r2 == nil ==> r1.Id == shamir.GetId() && r1.Value == shamir.GetValue()
+
+// ---- ceremony wiring and cross-checks of the produced shares -------------------------------------------
+
+// runFrostParallel hands each round exactly what the previous step produced for these participants.
+//@ func runFrostParallel
+//@ props C11
+//@ callreq newFrostParticipants: a1 == numValidators && a2 == numNodes && a3 == threshold && a4 == shareIdx && a5 == dgkCtx
+//@ callreq round1: a1 == validators
+//@ callreq tp.Round1: a2 == castR1 && a3 == p2pR1
+//@ callreq round2: a1 == validators && a2 == castR1Result && a3 == p2pR1Result
+//@ callreq tp.Round2: a2 == castR2
+//@ callreq makeShares: a1 == validators && a2 == castR2Result
+//@ ensures r1 == nil ==> ncalls(newFrostParticipants) == 1 && ncalls(round1) == 1 && ncalls(tp.Round1) == 1 && ncalls(round2) == 1 && ncalls(tp.Round2) == 1 && ncalls(makeShares) == 1
+//@ canary r1 != nil
+
+//@ pure tblsconv.SignatureFromBytes tbls.Verify tbls.Aggregate core.ParSignedData.Signature core.SignedData.Signature
+
+// Every partial lock-hash signature is verified against the public share that the ceremony published for
+// ITS share index and validator, over the lock hash; only verified ones are aggregated.
+//@ func aggLockHashSig
+//@ props C11
+//@ callreq tbls.Verify: has(shares, pk) && has(shares[pk].PublicShares, s.ShareIdx) && a1 == shares[pk].PublicShares[s.ShareIdx] && a2 == hash && a3 == res(0, tblsconv.SignatureFromBytes(s.Signature()))
+//@ ghost nOK int
+//@ ghostcall tbls.Verify: nOK = nOK + ite(tbls.Verify(a1, a2, a3) == nil, 1, 0)
+//@ callreq tbls.Aggregate: len(a1) == ncalls(tbls.Verify) && nOK == old(nOK) + ncalls(tbls.Verify)
+//@ ensures r2 == nil ==> len(r1) == ncalls(tbls.Verify) && ncalls(tbls.Aggregate) == 1
+//@ loop 1 invariant len(sigs) == ncalls(tbls.Verify) && len(pubkeys) == ncalls(tbls.Verify) && nOK == old(nOK) + ncalls(tbls.Verify) && ncalls(tbls.Aggregate) == 0
+//@ loop 2 invariant len(sigs) == ncalls(tbls.Verify) && len(pubkeys) == ncalls(tbls.Verify) && nOK == old(nOK) + ncalls(tbls.Verify) && ncalls(tbls.Aggregate) == 0
+//@ canary r2 != nil
